@@ -1058,6 +1058,19 @@ for _inp, _types in (("p0_2_mix", ["t_amplitude", "mp_density"]),
     _mk(_inp, _types)
 
 
+# the same intermediate factored after different, equally long lists of predecessors: what
+# was prepared for one list must not be served for another (seeded change c19_aj)
+for _names in (["p0_2_oo", "t1_2"], ["t2_1", "t1_2"], ["p0_2_vv", "t1_2"]):
+    def _mk(names):
+        @tmpl(f"expr.factor_intermediates(t1_2_once,names=[{','.join(names)}])", "expr", "",
+              cost=4)
+        def _(w):
+            from adcgen import factor_intermediates
+            return factor_intermediates(imp(w, "t1_2_once", real=True, targets=""),
+                                        types_or_names=list(names))
+    _mk(_names)
+
+
 @tmpl("expr.factor_intermediates(t2_2_once,t2_2)", "expr", "", cost=4)
 def _(w):
     from adcgen import factor_intermediates
